@@ -15,6 +15,7 @@ import ast
 from ..model import AnalysisError
 from ..terms import T, walk_terms
 from ..absint import AV, TOP, cav
+from ..walk import norm_stmt
 from ..walk import (dead_leaf, data_derives, ret_alts, call_parts, call_arg, is_call_to, const_val, NOVAL, strip_views, unwrap_gamma, axis_uses, same_value, struct_eq, cond_polarity, loop_role, index_chain, is_full_slice, last_axis_product_sum, index_extent, indexed_values, gamma_paths, possible_consts)
 from ..lin import linearise, product_factors, peel
 
@@ -594,6 +595,19 @@ def check_si_sdr(run, A):
 
 
 def check_snr(run, A):
+    # both SXR functions take every power (source images AND noise) over the time axis, the last one
+    n_pw = 0
+    for name in ('input_sxr', 'output_sxr'):
+        q2 = S + name
+        fn2 = A.prog.func(q2)
+        for e in A.graphs.get(fn2).events:
+            if e.kind == 'call' and call_parts(e.term)[0] == S + 'get_variance_for_zero_mean_signal':
+                n_pw += 1
+                ax = call_arg(e.term, 1, 'axis')
+                run.check(ax is not None and const_val(ax) == -1, 'R-AXIS', f'{name}: `{norm_stmt(e.term.node)}` is the power over time', fn2.loc(e.term.node), '',
+                          'a signal power of the SXR computation is not taken over the last (time) axis: the value per sensor / output is a mean over the wrong axis',
+                          construct=f'R-AXIS::{q2}::power-axis')
+    run.floor('signal powers of the SXR functions taken over time', n_pw, 4)
     q = S + 'set_snr'
     fn = A.prog.func(q)
     g = A.graphs.get(fn)
